@@ -14,7 +14,7 @@ func init() {
 	registerCheck(&CheckDef{
 		ID:    "C06",
 		Title: "NewVersion / NewVersionRange / vers.Contains never panic, always terminate within the unwinding bound, and return value xor error; Compare, String, Contains on accepted values do not panic",
-		Pkgs:  []string{zzhPkg},
+		Pkgs:  []string{zzhPkg, cmdPkg},
 		Rule:  "raw mode: every byte of the input string is symbolic (ASCII); one configuration per entry point x ecosystem x length; the engine reports any Go panic or unwinding failure on a feasible path",
 		Gen: func(tier string) []*Config {
 			var out []*Config
@@ -36,13 +36,49 @@ func init() {
 					}
 				}
 				for n := nr + 1; n <= nr+2; n++ {
+					if tier != "thorough" && n == nr+2 && (eco == "composer" || eco == "maven" || eco == "conan" || eco == "cargo" || eco == "npm") {
+						continue // too many paths for the quick budget
+					}
 					out = append(out, &Config{ID: fmt.Sprintf("C06/R/%s/syntax%d", eco, n), Pkg: zzhPkg, Func: "C06R", NoPanic: true, ScalarMergeOnly: true, Args: []ArgSpec{ArgStr(eco), ArgTmpl(rawTemplate(syntaxClass, n)), ArgTmpl(probe[0])}})
+				}
+			}
+			// vers.Contains: raw tails after a valid prefix, raw heads, raw versions
+			nt := 4
+			if tier == "thorough" {
+				nt = 5
+			}
+			for _, scheme := range []string{"npm", "deb", "pypi", "maven", "golang"} {
+				for n := 0; n <= nt; n++ {
+					out = append(out, &Config{ID: fmt.Sprintf("C06/vers/%s/tail%d", scheme, n), Pkg: zzhPkg, Func: "C06Vers", NoPanic: true, ScalarMergeOnly: true,
+						Args: []ArgSpec{ArgTmpl("vers:" + scheme + "/" + rawTemplate("A", n)), ArgTmpl("{d}.{d}.{d}")}})
+				}
+				for n := 0; n <= 3; n++ {
+					out = append(out, &Config{ID: fmt.Sprintf("C06/vers/%s/version%d", scheme, n), Pkg: zzhPkg, Func: "C06Vers", NoPanic: true, ScalarMergeOnly: true,
+						Args: []ArgSpec{ArgTmpl("vers:" + scheme + "/>={d}.{d}|<{d}.{d}.{d}"), ArgTmpl(rawTemplate("A", n))}})
+				}
+			}
+			for n := 0; n <= nt+2; n++ {
+				out = append(out, &Config{ID: fmt.Sprintf("C06/vers/head%d", n), Pkg: zzhPkg, Func: "C06Vers", NoPanic: true, ScalarMergeOnly: true,
+					Args: []ArgSpec{ArgTmpl(rawTemplate("A", n) + ">=1.0|<2"), ArgStr("1.5")}})
+				out = append(out, &Config{ID: fmt.Sprintf("C06/vers/syntax%d", n+2), Pkg: zzhPkg, Func: "C06Vers", NoPanic: true, ScalarMergeOnly: true,
+					Args: []ArgSpec{ArgTmpl("vers:npm/" + rawTemplate("[0-9v.<>=!*| a\\-]", n+2)), ArgStr("1.5.0")}})
+			}
+			// CLI argument vectors (run never panics, exit status 0 or 1, a line is written)
+			for n := 0; n <= 5; n++ {
+				for _, nm := range []string{"npm", "vers", "{A}{A}{A}"} {
+					for _, cm := range []string{"compare", "contains", "sort", "{A}{A}"} {
+						if n < 2 && cm != "compare" {
+							continue
+						}
+						out = append(out, &Config{ID: fmt.Sprintf("C06/cli/%d/%s/%s", n, nm, cm), Pkg: cmdPkg, Func: "C15Argv", NoPanic: true, ScalarMergeOnly: true,
+							Args: []ArgSpec{ArgInt(int64(n)), ArgTmpl(nm), ArgTmpl(cm), ArgTmpl("{A}{A}{A}"), ArgTmpl("{A}{A}"), ArgTmpl("{A}")}})
+					}
 				}
 			}
 			return out
 		},
 		Bounds: func(tier string) string {
-			return "all ASCII strings of length <= 5 (quick) / 7 (thorough) for version parsers and <= 4 / 5 for range parsers, plus strings up to 7 / 9 (versions) and 6 / 7 (ranges) over a 27-symbol syntax alphabet; probes for Contains from 2 grammar templates; bytes >= 0x80, the quadratic time bound and long inputs are outside the claim"
+			return "vers.Contains with raw ASCII tails <= 4/5 bytes after 5 scheme prefixes, raw heads <= 6/7, raw versions <= 3, tails <= 8/9 over a 19-symbol VERS alphabet; CLI argument vectors of 0-5 arguments with raw ASCII names, commands and arguments (2-3 bytes); all ASCII strings of length <= 5 (quick) / 7 (thorough) for version parsers and <= 4 / 5 for range parsers, plus strings up to 7 / 9 (versions) and 6 / 7 (ranges) over a 27-symbol syntax alphabet; probes for Contains from 2 grammar templates; bytes >= 0x80, the quadratic time bound and long inputs are outside the claim"
 		},
 		MaxPaths: 3000000,
 	})
